@@ -11,6 +11,7 @@ import ast
 from ..astx import walk_no_nested, dotted, call_name, self_attr, func_params, dominating_conditions, flatten_conditions, \
     terminates, parent
 from ..core import norm, Inconclusive
+from .. import pat
 from ..typestate import ClassAnalysis
 
 
@@ -28,6 +29,8 @@ def r17a(ctx):
     if not loops:
         raise Inconclusive("make_distinct: inner `while True` refinement loop not found")
     w = loops[-1]
+    _t0, tb_ = pat.first("T = IntervalTree()", f.node)
+    treev = tb_["T"] if tb_ else "tree"
     brk = [i for i in w.body if isinstance(i, ast.If) and any(isinstance(b, ast.Break) for b in i.body)]
     if not brk:
         ctx.violation("R17a", f.file, "make_distinct", w, "exit test", "the refinement loop has no exit test")
@@ -67,7 +70,7 @@ def r17a(ctx):
                       f"loop from ever exiting, or leaves the pair unseparated")
     # re-insertion only while overlapping
     adds = [c for c in walk_no_nested(f.node) if isinstance(c, ast.Call) and isinstance(c.func, ast.Attribute)
-            and c.func.attr == "add" and dotted(c.func.value) == "tree" and c.lineno > w.lineno]
+            and c.func.attr == "add" and dotted(c.func.value) == treev and c.lineno > w.lineno]
     def only_overlap_guard(c):
         # the add must sit directly in `if tree.overlaps(<its own begin, end>):` with no further condition
         p_ = parent(c)
@@ -77,7 +80,7 @@ def r17a(ctx):
             return False
         t = p_.test
         return isinstance(t, ast.Call) and isinstance(t.func, ast.Attribute) and t.func.attr == "overlaps" \
-            and dotted(t.func.value) == "tree" and p_.lineno > w.lineno
+            and dotted(t.func.value) == treev and p_.lineno > w.lineno
     ok = adds and all(only_overlap_guard(c) for c in adds)
     if ok and len(adds) == 2:
         ctx.proved("R17a", f.file, "make_distinct", adds[0], "re-insert only if overlapping",
@@ -160,8 +163,9 @@ def r17b(ctx):
                    f"{len(ca.sites)} dereference(s) of the exhausted-iterator field are guarded")
     # bounds(): the lower bound scans live nodes only and never exceeds the best upper bound
     b = m.method(q, "bounds")
-    t = ast.unparse(b.node).replace(" ", "")
-    if "ifnotnode.deleted:" in t and "min(node.key.lower_bound,lb)" in t and "min(lb,self.best_match.bounds().upper_bound)" in t:
+    live = pat.first("if not N.deleted:\n    L = min(N.key.lower_bound, L)", b.node)[1]
+    capped = live is not None and bool(pat.find_expr(f"Range(min({live['L']}, self.best_match.bounds().upper_bound), self.best_match.bounds().upper_bound)", b.node))
+    if live is not None and capped:
         ctx.proved("R17b", fl, "IterativeTighteningSearch.bounds", b.node, "search bounds",
                    "lower bound = min over live candidates' lower bounds, capped by the best upper bound")
     else:
@@ -210,8 +214,8 @@ def r17c(ctx):
                       "BoundedComparator.__lt__ no longer (refines both operands until one dominates or both are exhausted "
                       "and answers by dominance): sort()/min_bounded() can order overlapping intervals arbitrarily")
     mb = m.func("graphtage.bounds.min_bounded")
-    t = ast.unparse(mb.node).replace(" ", "")
-    if "ifbest_itemisNoneorb<best:" in t and "best_item=b.bounded" in t and "best=b" in t:
+    sel = pat.first("if I is None or B < C:\n    I = B.bounded\n    C = B", mb.node)[1]
+    if sel is not None and isinstance(mb.node.body[-1], ast.Return) and dotted(mb.node.body[-1].value) == sel["I"]:
         ctx.proved("R17c", mb.file, "min_bounded", mb.node, "min selection", "keeps the comparator-smaller candidate")
     else:
         ctx.violation("R17c", mb.file, "min_bounded", mb.node, "min selection", "min_bounded no longer keeps the smaller candidate under the comparator")
